@@ -200,8 +200,10 @@ def show_statement_to_info_schema_query(
             outputs.extend(['table_type AS "Table_type"'])
 
         select = exp.select(*outputs).from_("information_schema.tables")
-        db = show.text("db") or database
-        if not db:
+        # The tables of a mapping without a database level live in the database '':
+        # an empty name is a name, only the absence of one is "no database"
+        db = show.text("db") if show.args.get("db") is not None else database
+        if db is None:
             raise MysqlError("No database selected.", code=ErrorCode.NO_DB_ERROR)
         select = select.where(f"table_schema = '{db}'")
         like = show.text("like")
